@@ -30,10 +30,33 @@ Tie: correspondence (C).
   `Integrate` term) and finite differences of the real value; the index written by
   `Derive.get_signature` and the value are compared with `Integrals.literalIndex` /
   `Integrals.deriveNamed`.
+* round 3 - sessions on ONE database (`McSession`): BIOGEME objects created with a zero / non-zero seed (also twice with the same
+  seed, also with an unknown draw type), evaluated through `simulate`, `calculate_likelihood` (scaled or not),
+  `calculate_likelihood_and_derivatives`, `calculate_init_likelihood`; expressions evaluated in between through `get_value_c` (per
+  observation / aggregated), `get_value_and_derivatives` (aggregated / per observation, gradient) and `create_function` (called
+  twice at once, or created and called later with other operations in between - only operations that do not regenerate the
+  database's draws: see C10.function_reads_own_series_partial); numbers taken from the global generator; `number_of_draws`
+  assigned on an object (also under its deprecated name); 1-3 draw variables per formula of ALL 21 native types and the user
+  ones, order of first appearance mostly not alphabetical.  Oracle from the statement: the value (and the gradient) is the mean
+  over the draws of the integrand with every variable reading its own column of one of the tables `Database.generate_draws`
+  returned for these variables (recorded by a harness-side wrapper of the instance's public method), objects with the same
+  non-zero seed agree bit for bit.  Model: `McSession.run` on a describing instance says, per operation, which generator call
+  (history of the global generator since its last seeding) produced every cell of `Database.theDraws` and of the table the
+  engine received; the harness replays these histories on the real numpy generator with the real registered generators and
+  compares `Database.theDraws` after every operation (exact), every value / gradient, `number_of_draws`, the refusals, and the
+  values with `Integrals.monteCarlo` on the resolved tables;
+* every native type under a non-zero seed (exhaustive over the catalogue): the registered generator is a function of the seeded
+  state, two evaluations with the same seed agree bit for bit, and the value is the mean over one of the first tables the
+  registered generator produces from `np.random.seed(seed)`;
+* `Integrate` next to other elements: sum / product with a Monte-Carlo term, parameters and variables, two random variables in one
+  formula (appearance order not alphabetical), `MonteCarlo(Integrate(...))` whose integrand contains a draw variable - against the
+  proved Gaussian closed forms; through `get_value_c` and `BIOGEME.simulate`;
+* `BIOGEME.estimate` on a quadratic simulated log likelihood: final log likelihood = the mean over the own series at the estimate.
 """
 
 from __future__ import annotations
 
+import json
 import math
 
 import numpy as np
@@ -50,23 +73,40 @@ MANIFEST = dict(
     'reserved_refused, wrong_shape_refused, unknown_type_refused); the Monte-Carlo loop is the arithmetic mean over r of the integrand with every draw variable replaced by its own '
     'series\' r-th draw, end to end on the table produced by generate_draws (mc_mean, mc_own_series, mc_denotes_mean); the symbolic derivative of the formula family is the derivative, w.r.t. parameters and variables (derive_is_diff, derive_var_is_diff: '
     'HasDerivAt), also of a simulated quantity: the Monte-Carlo mean of the symbolic derivative is the derivative of the Monte-Carlo mean (derive_mc_is_diff, derive_mc_var_is_diff); the index Derive.get_signature sends to the engine denotes the named literal and no other in the global numbering free / fixed / random variables / draws / columns, a column being numbered after all four other groups (derive_index_names_literal, derive_index_variable), and the engine\'s derivative w.r.t. that literal id is the symbolic derivative w.r.t. the named column / parameter (derive_named_var_is_diff, derive_named_beta_is_diff); a non-zero seed determines the generator state (seeded_deterministic); Gaussian closed forms over R from Mathlib: int phi = 1, int x phi = 0, int x^2 phi = 1, '
-    'int phi e^{ax} = e^{a^2/2}, int (c0+c1 x+c2 x^2) phi e^{ax} = e^{a^2/2}(c0+c1 a+c2(1+a^2)) (integral_phi, integral_x_phi, integral_x2_phi, integral_phi_exp, integral_x_phi_exp, integral_x2_phi_exp, integral_poly_phi_exp). Tie: real Database/BIOGEME/expressions on generated cases.',
+    'int phi e^{ax} = e^{a^2/2}, int (c0+c1 x+c2 x^2) phi e^{ax} = e^{a^2/2}(c0+c1 a+c2(1+a^2)) (integral_phi, integral_x_phi, integral_x2_phi, integral_phi_exp, integral_x_phi_exp, integral_x2_phi_exp, integral_poly_phi_exp). '
+    'Round 3 (Model/McSession.lean): generate_draws with the state of the global generator threaded through the loop - every column is what the generator of its variable\'s type returned when called for that variable '
+    '(table_index_stateful, own_series_stateful); the list of names a call site hands to generate_draws is forced to be the sorted one by the drawId numbering, the order of appearance is refuted on a witness '
+    '(call_site_order_forced, appearance_order_refuted); BIOGEME.__init__ = seed policy + three generation rounds, the engine receives the second one, built for the sorted names, and every evaluation through the object reads each variable\'s own series of that round '
+    '(biogeme_engine_is_second_round, biogeme_reads_own_series, biogeme_mc_mean, biogeme_mc_denotes_mean: end to end over the reals); an expression evaluated with prepare_ids reads the table generated in that call (expr_reads_own_series); whatever happens afterwards on the database / generator / attribute number_of_draws an object keeps its formulas and engine table '
+    '(engine_frozen, List Op fold); a function made by create_function reads its own series as long as nothing regenerates Database.theDraws between creation and call - PARTIAL, the unguarded statement is refuted on a witness: the calculator hands database.theDraws as it is at the time of the call '
+    '(function_reads_own_series_partial, function_reads_later_table); two constructors with the same non-zero seed build the same object in any two worlds, seed 0 continues from the current state (seeded_objects_identical, seed_zero_continues); '
+    'the literal id of every group: free, fixed (after the free ones), random variable, draw variable = offset + drawId (derive_index_free, derive_index_fixed, derive_index_rv, derive_index_draw). '
+    'Tie: real Database/BIOGEME/expressions on generated cases and sessions, every entry point.',
     design='DESIGN.md §5 C10',
     technique='Lean 4 theorems (core + Mathlib calculus / Gaussian measure) over an executable model of the draw table, dispatch, Monte-Carlo loop, literal numbering and derivative + differential correspondence',
-    note='PARTIAL: the quadrature error of Integrate for general integrands is not proved (closed-form Gaussian family used as oracle, tolerance 1e-6); the distribution of native draws is C11\'s subject; engine operators modelled, not verified.',
+    note='PARTIAL: the quadrature error of Integrate for general integrands is not proved (closed-form Gaussian family used as oracle, tolerance 1e-6); the distribution of native draws is C11\'s subject; engine operators modelled, not verified; '
+    'a function made by Expression.create_function reads Database.theDraws at call time (own series only while nothing else regenerates the draws of that database: function_reads_own_series_partial).',
 )
 
 TRUSTED = [
     'cythonbiogeme operators MonteCarlo / bioDraws / Integrate (100-point Gauss-Hermite) / Derive: modelled (MonteCarlo, bioDraws, Derive) or compared with closed forms (Integrate), not verified',
     'numpy array construction and moveaxis (their result is compared entry by entry on every case)',
     'native generators are observed through a recording wrapper placed by the harness on the catalogue entry (random types) or re-invoked (deterministic Halton types)',
+    'sessions: the tables the model describes are produced by replaying the described history (np.random.seed, np.random.uniform(size=k), the registered generators in the described order) on the real numpy generator; '
+    'the engine table of a BIOGEME object is observed through the values of generated integrands only (the engine has no getter)',
+    'Database.generate_draws of the session\'s database is wrapped on the instance to record the tables it returned (oracle of the session stream)',
 ]
-ASSUMPTIONS = ['generators are deterministic functions of (sample size, number of draws) or observed through the recording wrapper']
+ASSUMPTIONS = ['generators are deterministic functions of (sample size, number of draws) or observed through the recording wrapper',
+               'nothing but the registered generators takes numbers from numpy\'s global generator during BIOGEME.__init__ and the evaluations (confirmed by the exact comparison of Database.theDraws in the session stream)',
+               'McSession: a formula requires draws iff it has draw variables (a MonteCarlo operator without bioDraws is not modelled)']
 RULE = (
     'N in 1..5 x R in {1,2,7,50} x 1-3 draw variables of different types (user G0-G2, native Halton, native random through the recorder) x integrand trees of depth <= 4; '
     'non-trivial = R >= 2 and (>= 2 draw variables or a non-constant integrand); seeds: layout of the formulas (Monte-Carlo formula alone / next to a closed-form '
     'log likelihood (+ weight) / as the log likelihood) x seed by keyword or file x 1-3 draw variables of random native types; Derive in context: 2-3 parameters (free / fixed) x '
-    '0-1 random variable x 0-3 draw variables x 2-4 database columns x w.r.t. free parameter / fixed parameter / column / random variable x Derive(MonteCarlo) / MonteCarlo(Derive) / plain'
+    '0-1 random variable x 0-3 draw variables x 2-4 database columns x w.r.t. free parameter / fixed parameter / column / random variable x Derive(MonteCarlo) / MonteCarlo(Derive) / plain; '
+    'sessions: 3-7 operations + one final simulate per object on one database of 1-4 rows: new BIOGEME (seed 0 / non-zero / the same formulas and seed again / unknown type; layout is-ll, single, next-to-ll, only; R in {1,2,3,4,8}) | evaluation of an object (simulate, calculate_likelihood, scaled, calculate_likelihood_and_derivatives) | '
+    'expression (get_value_c, aggregated, get_value_and_derivatives aggregated / per observation, create_function) | create_function then calls separated by quiet operations | number_of_draws assigned | 1, 17 or 400 numbers consumed; 1-3 draw variables of the 21 native + 3 user types, appearance order reversed w.p. 0.6; non-trivial = a formula with >= 2 draw variables; '
+    'native types under a seed: every catalogue entry x N in 1..4 x R in {1,2,3,8} x BIOGEME / get_value_c; Integrate next to other elements: sum | product | two random variables | MonteCarlo(Integrate) x get_value_c / BIOGEME; estimate: 2 draw variables of different deterministic types, R in {2,4,8}'
 )
 
 MATCHERS = {}
@@ -75,8 +115,9 @@ TOML = core.TOML_MINIMAL
 COLS = ['X', 'Y']
 NAME_POOL = ['xi10', 'xi2', 'xi_a', 'xi_b', 'a', 'Zeta', 'h', 'omega_d', 'B']
 BETA_NAMES = ['b2', 'b10']  # sorted: b10, b2 -> positions differ from the order of appearance
-DET_NATIVE = ['UNIFORM_HALTON2', 'UNIFORM_HALTON3', 'UNIFORM_HALTON5', 'UNIFORMSYM_HALTON2', 'NORMAL_HALTON2', 'NORMAL_HALTON3', 'NORMAL_HALTON5']
-RND_NATIVE = ['UNIFORM', 'NORMAL', 'UNIFORMSYM', 'UNIFORM_MLHS', 'NORMAL_MLHS', 'NORMAL_ANTI', 'UNIFORM_ANTI']
+DET_NATIVE = ['UNIFORM_HALTON2', 'UNIFORM_HALTON3', 'UNIFORM_HALTON5', 'UNIFORMSYM_HALTON2', 'UNIFORMSYM_HALTON3', 'UNIFORMSYM_HALTON5', 'NORMAL_HALTON2', 'NORMAL_HALTON3', 'NORMAL_HALTON5']
+RND_NATIVE = ['UNIFORM', 'NORMAL', 'UNIFORMSYM', 'UNIFORM_MLHS', 'NORMAL_MLHS', 'NORMAL_ANTI', 'UNIFORM_ANTI', 'UNIFORM_MLHS_ANTI', 'UNIFORMSYM_ANTI', 'UNIFORMSYM_MLHS',
+              'UNIFORMSYM_MLHS_ANTI', 'NORMAL_MLHS_ANTI']  # every native type is in one of the two lists (checked by `check_native_seed`)
 USER = ['G0', 'G1', 'G2']
 
 
@@ -980,7 +1021,10 @@ def check_derive2(ctx, res, case):
     # ---- correspondence: the index written by Derive.get_signature and the value, vs the model
     try:
         F.prepare(d, R)
-        sig_idx = sorted({int(ln.decode().split(',')[-1]) for ln in F.get_signature() if ln.startswith(b'<Derive>')})
+        sig = F.get_signature()
+        sig_idx = sorted({int(ln.decode().split(',')[-1]) for ln in sig if ln.startswith(b'<Derive>')})
+        # <bioDraws>{id}"name",literal id,draw id
+        sig_draws = sorted({(ln.decode().split('"')[1], int(ln.decode().split(',')[-2]), int(ln.decode().split(',')[-1])) for ln in sig if ln.startswith(b'<bioDraws>')})
         F.set_id_manager(None)
     except Exception as ex:  # noqa: BLE001
         res.violate(f'get_signature raises {type(ex).__name__}: {str(ex)[:150]}', case, core.exc_kind(ex), 'a signature', where=where)
@@ -999,6 +1043,8 @@ def check_derive2(ctx, res, case):
         a = ans[0]
         if sig_idx != [a.get('index')]:
             res.diverge(f'index of "{name}" written by Derive.get_signature vs Integrals.literalIndex (free, fixed, random variables, draws, columns)', case, a.get('index'), sig_idx)
+        if sig_draws != sorted((n, i, k) for n, i, k in a.get('draw_ids', [])):
+            res.diverge('literal id and draw id written by bioDraws.get_signature vs Integrals.literalIndex / drawId (C10.derive_index_draw)', case, a.get('draw_ids'), sig_draws)
         if wrt != 'rv':
             mv = [b2f(v) + c for v, c in zip(a.get('values', []), closed)]
             if len(mv) != len(vals) or not all(abs(x - y) <= t for x, y, t in zip(mv, vals, tol)):
@@ -1011,6 +1057,646 @@ def tree_has(t, kind):
     if t['k'] == kind:
         return True
     return any(tree_has(t[c], kind) for c in ('a', 'b') if c in t)
+
+
+
+# ----------------------------------------------------------------------------- G. sessions: every entry point, seeds, several objects
+
+EXPR_VIAS = ['get_value_c', 'get_value_c_agg', 'gvad', 'gvad_disagg', 'create_function']
+BIO_VIAS = ['simulate', 'calculate_likelihood', 'calculate_likelihood_scaled', 'cl_and_derivatives', 'calculate_init_likelihood']
+
+
+def native_split():
+    nat = native_names()
+    return [t for t in nat if 'HALTON' in t], [t for t in nat if 'HALTON' not in t]
+
+
+def gen_formula(rng, pool, nb=2):
+    """draw variables in their order of first appearance (mostly not the alphabetical one) and an integrand using all of them"""
+    K = rng.choice([1, 2, 2, 3, 3])
+    names = rng.sample(NAME_POOL, K)
+    if K >= 2 and rng.random() < 0.6:
+        names.sort(reverse=True)
+    decl = [[n, rng.choice(pool)] for n in names]
+    base = None
+    for n, _ in decl:
+        coef = rng.choice([{'k': 'beta', 'i': 0}, {'k': 'beta', 'i': 1}, {'k': 'var', 'j': 0}, {'k': 'var', 'j': 1}, lit(rng, [(5, 1), (25, 2), (-15, 1)])])
+        term = {'k': 'mul', 'a': {'k': 'draw', 'n': n}, 'b': coef}
+        base = term if base is None else {'k': rng.choice(['add', 'sub']), 'a': base, 'b': term}
+    tree = {'k': rng.choice(['add', 'sub', 'mul']), 'a': base, 'b': gen_tree(rng, rng.randint(0, 2), names, nb, 2)}
+    return decl, tree
+
+
+def gen_session(rng):
+    det, rnd = native_split()
+    pool = USER + det + rnd + rnd
+    N = rng.randint(1, 4)
+    ops, specs = [], []
+
+    def new_R(decl):
+        return fix_R(rng.choice([1, 2, 3, 4, 8]), [t for _, t in decl])
+
+    def new_op():
+        if specs and rng.random() < 0.4:
+            op = dict(rng.choice(specs))  # the same formulas again: two objects in one process
+            if op['seed'] == 0 or rng.random() < 0.2:
+                op['seed'] = rng.choice([0, rng.randint(1, 10**6)])
+        else:
+            decl, tree = gen_formula(rng, pool)
+            if rng.random() < 0.04:
+                decl[rng.randrange(len(decl))][1] = rng.choice(['NORMALL', 'G7'])
+            op = {'k': 'new', 'seed': rng.choice([0, rng.randint(1, 10**6), rng.randint(1, 10**6)]), 'decl': decl, 'R': new_R(decl), 'tree': tree,
+                  'layout': rng.choice(['is-ll', 'single', 'next-to-ll', 'only']), 'll_key': rng.choice(['log_like', 'loglike'])}
+        return op
+
+    n_ops = rng.randint(3, 7)
+    live = False  # a function made by create_function whose draws are still those of the database
+    while len(ops) < n_ops:
+        kind = rng.choice(['new', 'new', 'evalB', 'evalB', 'evalB', 'evalE', 'evalE', 'setR', 'consume', 'createF', 'callF', 'callF'])
+        if kind in ('evalB', 'setR') and not specs:
+            kind = 'new'
+        if kind == 'callF' and not live:
+            kind = 'createF'
+        if kind in ('new', 'evalE'):
+            live = False  # the guard of C10.function_reads_own_series_partial
+        if kind == 'createF':
+            decl, tree = gen_formula(rng, pool)
+            ops.append({'k': 'createF', 'decl': decl, 'R': new_R(decl), 'tree': tree})
+            live = True
+            if rng.random() < 0.6:
+                if rng.random() < 0.4:
+                    ops.append({'k': 'consume', 'n': rng.choice([1, 17])})
+                ops.append({'k': 'callF', 'shift': rng.choice([0.0, 0.5, -1.0])})
+        elif kind == 'callF':
+            ops.append({'k': 'callF', 'shift': rng.choice([0.0, 0.5, -1.0])})
+        elif kind == 'new':
+            op = new_op()
+            ops.append(op)
+            if all(t in USER + det + rnd for _, t in op['decl']):
+                specs.append(op)
+        elif kind == 'evalB':
+            ops.append({'k': 'evalB', 'i': rng.randrange(len(specs)), 'via': rng.choice(BIO_VIAS)})
+        elif kind == 'setR':
+            ops.append({'k': 'setR', 'i': rng.randrange(len(specs)), 'R': rng.choice([1, 2, 6, 100]), 'alias': rng.random() < 0.3})
+        elif kind == 'evalE':
+            prev = [i for i, o in enumerate(ops) if o['k'] == 'evalE' and 'reuse_of' not in o and o['via'] != 'create_function']
+            if prev and rng.random() < 0.4:
+                # the SAME expression object evaluated again, with another number of draws
+                src = rng.choice(prev)
+                R2 = rng.choice([r for r in (2, 4, 6, 8) if r != ops[src]['R']])
+                ops.append({'k': 'evalE', 'decl': ops[src]['decl'], 'R': R2, 'tree': ops[src]['tree'], 'via': rng.choice(EXPR_VIAS[:4]), 'reuse_of': src})
+            else:
+                decl, tree = gen_formula(rng, pool)
+                ops.append({'k': 'evalE', 'decl': decl, 'R': new_R(decl), 'tree': tree, 'via': rng.choice(EXPR_VIAS)})
+        else:
+            ops.append({'k': 'consume', 'n': rng.choice([1, 17, 400])})
+    for i in range(len(specs)):  # every object is evaluated at the end, the same way (pairs with the same seed are compared)
+        ops.append({'k': 'evalB', 'i': i, 'via': 'simulate'})
+    return {'N': N, 'seed0': rng.randint(1, 10**6), 'ops': ops, 'betas': [rng.randint(-8, 8) / 8.0, rng.randint(-8, 8) / 16.0],
+            'rows': [[rng.randint(-8, 8) / 4.0, rng.randint(-4, 4) / 2.0] for _ in range(N)]}
+
+
+def with_betas(e):
+    """every parameter exists in the formula"""
+    from biogeme.expressions import Beta
+
+    return e + 0 * (Beta(BETA_NAMES[0], 0.0, None, None, 0) + Beta(BETA_NAMES[1], 0.0, None, None, 0))
+
+
+def eval_expr(op, d, bdict, exprs=None, pos=None):
+    """one evaluation of an expression through a public entry point: {'vals' | 'sum', 'grad'}"""
+    from biogeme.expressions import MonteCarlo
+
+    types = {n: t for n, t in op['decl']}
+    if exprs is not None and 'reuse_of' in op:
+        expr = exprs[op['reuse_of']]
+    else:
+        expr = with_betas(MonteCarlo(build(op['tree'], types)))
+    if exprs is not None:
+        exprs[pos] = expr
+    R, via = op['R'], op['via']
+    if via == 'get_value_c':
+        return {'vals': [float(v) for v in expr.get_value_c(database=d, betas=bdict, number_of_draws=R, prepare_ids=True)]}
+    if via == 'get_value_c_agg':
+        return {'sum': float(expr.get_value_c(database=d, betas=bdict, number_of_draws=R, aggregation=True, prepare_ids=True))}
+    if via in ('gvad', 'gvad_disagg'):
+        r = expr.get_value_and_derivatives(betas=bdict, database=d, number_of_draws=R, gradient=True, hessian=False, bhhh=False,
+                                           aggregation=via == 'gvad', prepare_ids=True, named_results=True)
+        if via == 'gvad':
+            return {'sum': float(r.function), 'grad': {k: float(v) for k, v in r.gradient.items()}}
+        return {'vals': [float(v) for v in r.functions], 'grads': [{k: float(v) for k, v in g.items()} for g in r.gradients]}
+    f = expr.create_function(database=d, number_of_draws=R, gradient=True, hessian=False)
+    x = np.array([bdict[n] for n in expr.id_manager.free_betas.names])
+    f(x + 1.0)  # the function is called several times: the draws are those of its creation
+    r = f(x)
+    return {'sum': float(r.function), 'grad': {k: float(v) for k, v in r.gradient.items()}}
+
+
+def eval_bio(B, spec, via, bdict, N):
+    free = list(B.free_beta_names)
+    x = [bdict[n] for n in free]
+    if spec['layout'] not in ('is-ll', 'single'):
+        via = 'simulate'
+    if via == 'simulate':
+        key = formulas_for(spec['layout'], None, spec['ll_key'])[1]
+        return {'vals': [float(v) for v in B.simulate({n: bdict[n] for n in free})[key].values]}
+    if via == 'calculate_likelihood':
+        return {'sum': float(B.calculate_likelihood(x, scaled=False))}
+    if via == 'calculate_likelihood_scaled':
+        return {'sum': float(B.calculate_likelihood(x, scaled=True)) * N, 'scaled': True}
+    if via == 'calculate_init_likelihood':
+        return {'sum': float(B.calculate_init_likelihood()), 'init_betas': True}  # at the initial values of the parameters (0)
+    r = B.calculate_likelihood_and_derivatives(x, scaled=False, hessian=False, bhhh=False)
+    return {'sum': float(r.function), 'grad': {n: float(g) for n, g in zip(free, r.gradient)}}
+
+
+def run_session(case):
+    """the real run: per operation what was returned / raised, `Database.theDraws` afterwards, and every table
+    `Database.generate_draws` returned during the session (a harness-side wrapper of the instance's public method)"""
+    import biogeme.biogeme as bio
+    from biogeme.expressions import MonteCarlo
+
+    N = case['N']
+    bdict = beta_vector(case['betas'])
+    out, generated, objs, func, exprs = [], [], [], None, {}
+    with core.scratch(TOML):
+        d = make_db(N, case['rows'])
+        d.set_random_number_generators({f'G{g}': (user_gen(g), f'user {g}') for g in range(3)})
+        orig = d.generate_draws
+
+        def wrapped(draw_types, names, number_of_draws):
+            t = orig(draw_types, names, number_of_draws)
+            generated.append((list(names), int(number_of_draws), np.array(t, dtype=float), {n: draw_types[n] for n in names}))
+            return t
+
+        d.generate_draws = wrapped
+        np.random.seed(case['seed0'])
+        for pos, op in enumerate(case['ops']):
+            o = {}
+            try:
+                if op['k'] == 'new':
+                    types = {n: t for n, t in op['decl']}
+                    formulas, _ = formulas_for(op['layout'], with_betas(MonteCarlo(build(op['tree'], types))), op['ll_key'])
+                    B = bio.BIOGEME(d, formulas, number_of_draws=op['R'], seed=op['seed'])
+                    objs.append((B, op))
+                    o['nd'] = int(B.number_of_draws)
+                elif op['k'] == 'setR':
+                    if op.get('alias'):
+                        objs[op['i']][0].numberOfDraws = op['R']  # the deprecated name of the attribute
+                    else:
+                        objs[op['i']][0].number_of_draws = op['R']
+                    o['nd'] = int(objs[op['i']][0].number_of_draws)
+                elif op['k'] == 'evalB':
+                    B, spec = objs[op['i']]
+                    o.update(eval_bio(B, spec, op['via'], bdict, N))
+                    o['nd'] = int(B.number_of_draws)
+                elif op['k'] == 'evalE':
+                    o.update(eval_expr(op, d, bdict, exprs, pos))
+                elif op['k'] == 'createF':
+                    expr = with_betas(MonteCarlo(build(op['tree'], {n: t for n, t in op['decl']})))
+                    func = (expr.create_function(database=d, number_of_draws=op['R'], gradient=True, hessian=False), expr)
+                elif op['k'] == 'callF':
+                    x = np.array([bdict[n] + op['shift'] for n in func[1].id_manager.free_betas.names])
+                    r = func[0](x)
+                    o.update({'sum': float(r.function), 'grad': {k: float(v) for k, v in r.gradient.items()}, 'shift': op['shift']})
+                else:
+                    np.random.uniform(size=op['n'])
+            except Exception as e:  # noqa: BLE001
+                if isinstance(e, RuntimeError):
+                    raise
+                o['err'] = core.exc_kind(e)
+                o['msg'] = str(e)[:160]
+            o['db'] = None if d.theDraws is None else np.array(d.theDraws, dtype=float)
+            o['n_generated'] = len(generated)
+            out.append(o)
+    return out, generated
+
+
+def expected_from_table(tree, betas, rows, col_of, T, R, want_grad):
+    """mean over the draws of the integrand, the draw variable `name` reading column `col_of[name]` of T[n][r][.]:
+    per observation (value, tolerance, {beta: derivative}, {beta: tolerance})"""
+    res = []
+    for n, row in enumerate(rows):
+        duals = {None: [py_dual(tree, betas, row, {nm: float(T[n][r][k]) for nm, k in col_of.items()}, None) for r in range(R)]}
+        if want_grad:
+            for i in range(len(betas)):
+                duals[i] = [py_dual(tree, betas, row, {nm: float(T[n][r][k]) for nm, k in col_of.items()}, ('beta', i)) for r in range(R)]
+        v = math.fsum(t[0] for t in duals[None]) / R
+        tv = 1e-11 * math.fsum(t[2] for t in duals[None]) / R + 1e-13
+        g = {BETA_NAMES[i]: math.fsum(t[1] for t in duals[i]) / R for i in duals if i is not None}
+        tg = {BETA_NAMES[i]: 1e-11 * math.fsum(t[3] for t in duals[i]) / R + 1e-13 for i in duals if i is not None}
+        res.append((v, tv, g, tg))
+    return res
+
+
+def matches(o, exp):
+    """does what an evaluation returned agree with the per-observation expectation?"""
+    def grads_ok(got, idxs):
+        for name, gv in got.items():
+            e = math.fsum(exp[n][2][name] for n in idxs)
+            t = math.fsum(exp[n][3][name] for n in idxs)
+            if not abs(gv - e) <= t * (1 + len(idxs)):
+                return False
+        return True
+
+    alln = range(len(exp))
+    if 'vals' in o:
+        if len(o['vals']) != len(exp) or not all(abs(x - e[0]) <= e[1] for x, e in zip(o['vals'], exp)):
+            return False
+        if 'grads' in o and not all(grads_ok(g, [n]) for n, g in enumerate(o['grads'])):
+            return False
+        return True
+    e = math.fsum(x[0] for x in exp)
+    t = math.fsum(x[1] for x in exp) * (1 + len(exp))
+    if not abs(o['sum'] - e) <= t:
+        return False
+    return grads_ok(o.get('grad', {}), alln)
+
+
+def describe(o):
+    return {k: v for k, v in o.items() if k in ('vals', 'sum', 'grad', 'grads', 'err', 'msg', 'nd', 'init_betas', 'scaled', 'shift')}
+
+
+def check_session(ctx, res, case):
+    """a history on ONE database: BIOGEME objects created (seeded or not), evaluated through every entry point, expressions
+    evaluated in between, numbers taken from the global generator, number_of_draws assigned"""
+    where = 'session'
+    iso_f.note(case, where)
+    N, betas, rows = case['N'], case['betas'], case['rows']
+    det, rnd = native_split()
+    valid = set(USER + det + rnd)
+    out, generated = run_session(case)
+    specs = [op for op in case['ops'] if op['k'] == 'new' and all(t in valid for _, t in op['decl'])]
+    res.count({'session': case}, nontrivial=any(len(op.get('decl', [])) >= 2 for op in case['ops']))
+    for op in case['ops']:
+        res.tally('session:' + op['k'] + (':' + op['via'] if 'via' in op else '') + (':seed0' if op.get('seed') == 0 else ''))
+        if 'reuse_of' in op:
+            res.tally('session:evalE:same-expression-object-other-number-of-draws')
+        for _, t in op.get('decl', []):
+            res.tally('session-type:' + t)
+        if op.get('decl') and [n for n, _ in op['decl']] != sorted(n for n, _ in op['decl']):
+            res.tally('session:appearance-order-not-alphabetical')
+    def spec_of(pos):
+        op = case['ops'][pos]
+        if op['k'] == 'evalB':
+            return specs[op['i']]
+        if op['k'] == 'callF':  # the function created last
+            return [c for c in case['ops'][:pos] if c['k'] == 'createF'][-1]
+        return op
+
+    def betas_of(o):
+        return [0.0, 0.0] if o.get('init_betas') else [b + o.get('shift', 0.0) for b in betas]
+
+    # ---- oracle from the statement (no model): refusals, own series, reproducibility
+    sims = {}
+    for pos, (op, o) in enumerate(zip(case['ops'], out)):
+        bad_types = [t for _, t in op.get('decl', []) if t not in valid]
+        if 'err' in o:
+            if not (bad_types and o['err'].startswith('BiogemeError')):
+                res.violate(f'operation {pos} ({op["k"]}) raises {o["err"]}: {o.get("msg")} on valid inputs', case, o['err'], 'no exception', where=where)
+                return
+            continue
+        if bad_types:
+            res.violate(f'operation {pos}: an unknown draw type is refused with the library error', case, describe(o), 'BiogemeError', where=where)
+            return
+        if op['k'] not in ('evalB', 'evalE', 'callF'):
+            continue
+        spec = spec_of(pos)
+        types = {n: t for n, t in spec['decl']}
+        R = spec['R']
+        want_grad = 'grad' in o or 'grads' in o
+        # every table generated so far for these variables: the value must be the mean over the draws of the integrand
+        # with every variable reading ITS column (the column of its name in the list handed to generate_draws)
+        cands = [(names, T) for names, R_, T, types_ in generated[: o['n_generated']] if types_ == types and R_ == R]
+        ok = False
+        for names, T in cands:
+            for k, nm in enumerate(names):
+                if types[nm] in USER or types[nm] in det:
+                    if not np.array_equal(T[:, :, k], np.asarray(series_of(types[nm], N, R), dtype=float)):
+                        res.violate(f'operation {pos}: column {k} of a generated table holds the series of {nm} (type {types[nm]})', case, T[:, :, k].tolist(), series_of(types[nm], N, R), where=where)
+                        return
+            if matches(o, expected_from_table(spec['tree'], betas_of(o), rows, {nm: names.index(nm) for nm in names}, T, R, want_grad)):
+                ok = True
+                break
+        if not ok:
+            exp = expected_from_table(spec['tree'], betas_of(o), rows, {nm: cands[-1][0].index(nm) for nm in cands[-1][0]}, cands[-1][1], R, want_grad) if cands else None
+            res.violate(f'operation {pos} ({op["k"]} via {op.get("via", "create_function")}): the value is the mean over the draws of the integrand, every draw variable replaced by its own series '
+                        '(one of the tables generated for these variables)', case, describe(o),
+                        None if exp is None else {'vals': [e[0] for e in exp], 'sum': math.fsum(e[0] for e in exp), 'grad': {b: math.fsum(e[2][b] for e in exp) for b in exp[0][2]}}, where=where)
+            return
+        if op['k'] == 'evalB' and 'vals' in o:
+            sims.setdefault(op['i'], o['vals'])
+            key = json.dumps([spec['seed'], spec['decl'], spec['R'], spec['tree'], spec['layout']], sort_keys=True)
+            if spec['seed'] != 0:
+                first = sims.setdefault(key, (op['i'], o['vals']))
+                if [f2b(v) for v in first[1]] != [f2b(v) for v in o['vals']]:
+                    res.violate(f'with a non-zero seed the results are reproducible: objects {first[0]} and {op["i"]} built with seed {spec["seed"]} on the same formulas', case, o['vals'], first[1], where=where)
+                    return
+    # ---- correspondence with the model of the session (McSession on the describing instance)
+    req = {'op': 'session', 'native': native_names(), 'user': USER, 'N': N, 'seed0': case['seed0'],
+           'ops': [{k: v for k, v in op.items() if k in ('k', 'seed', 'decl', 'R', 'i', 'n')} for op in case['ops']]}  # `reuse_of` is not sent: the model has no expression objects
+
+    def cb(ans):
+        a = ans[0]
+        if 'steps' not in a or len(a['steps']) != len(out):
+            res.diverge('session vs McSession.run', case, a, 'one answer per operation')
+            return
+        tables = [replay_call(c) for c in a['calls']]
+
+        def resolve(desc):
+            return None if desc is None else np.array([[[tables[c][n][r] for c, n, r in row] for row in m] for m in desc], dtype=float)
+
+        stage2 = []
+        for pos, (op, o, st) in enumerate(zip(case['ops'], out, a['steps'])):
+            merr = st.get('err')
+            if (merr is None) != ('err' not in o) or (merr and not merr.startswith(o['err'].split(':')[0])):
+                res.diverge(f'operation {pos}: error raised vs McSession.step', case, merr, o.get('err'))
+                return
+            mdb = resolve(st['db'])
+            if (mdb is None) != (o['db'] is None) or (mdb is not None and (mdb.shape != o['db'].shape or not np.array_equal(mdb, o['db']))):
+                res.diverge(f'operation {pos} ({op["k"]}): Database.theDraws vs the table McSession describes (replayed on the real generators)', case,
+                            None if mdb is None else mdb.tolist(), None if o['db'] is None else o['db'].tolist())
+                return
+            if 'nd' in o and st.get('nd') != o['nd']:
+                res.diverge(f'operation {pos}: number_of_draws of the object vs McSession', case, st.get('nd'), o['nd'])
+                return
+            if merr or op['k'] not in ('evalB', 'evalE', 'callF'):
+                continue
+            spec = spec_of(pos)
+            T = resolve(st['engine']) if op['k'] == 'evalB' else mdb
+            ids = {n: k for n, k in st['ids']}
+            if T is None or sorted(ids) != sorted(n for n, _ in spec['decl']):
+                res.diverge(f'operation {pos}: table read by the evaluation vs McSession', case, st, 'a table and one id per draw variable')
+                return
+            exp = expected_from_table(spec['tree'], betas_of(o), rows, ids, T, spec['R'], 'grad' in o or 'grads' in o)
+            if not matches(o, exp):
+                res.diverge(f'operation {pos} ({op["k"]} via {op.get("via", "create_function")}): value vs the mean over the table McSession.readBiogeme / readExpr designates '
+                            '(described calls replayed on the real generators from the seeded state)', case, [e[0] for e in exp], describe(o))
+                return
+            if 'vals' in o:
+                stage2.append((pos, o['vals'], {'op': 'mc', 'declared': [n for n, _ in spec['decl']], 'table': [[[f2b(float(v)) for v in r] for r in m] for m in T],
+                                                'betas': [f2b(v) for v in betas], 'rows': [[f2b(v) for v in r] for r in rows], 'R': spec['R'], 'e': spec['tree']}))
+        if stage2:
+            def cb2(ans2):
+                for (pos, vals, _), a2 in zip(stage2, ans2):
+                    mv = [b2f(v) for v in a2.get('values', [])]
+                    if len(mv) != len(vals) or not all(core.close(x, y, rel=1e-11, abs_=1e-11) for x, y in zip(mv, vals)):
+                        res.diverge(f'operation {pos}: value vs Integrals.monteCarlo on the table of McSession', case, mv, vals)
+                        return
+
+            ctx.batch.add_many([r for _, _, r in stage2], cb2)
+
+    ctx.batch.add_many([req], cb)
+
+
+def replay_call(log):
+    """the table a described call returns on the real generators: the events since the last seeding are replayed on numpy's
+    global generator with the real registered generators; the last event is the call itself"""
+    from biogeme.native_draws import native_random_number_generators
+
+    out = None
+    for ev in log:
+        if ev[0] == 'seed':
+            np.random.seed(ev[1])
+        elif ev[0] == 'consume':
+            np.random.uniform(size=ev[1])
+        else:
+            kind, ty = ev[1].split(':', 1)
+            gen = native_random_number_generators[ty].generator if kind == 'native' else user_gen(USER.index(ty))
+            out = np.array(gen(ev[2], ev[3]), dtype=float)
+    return out
+
+
+
+# ----------------------------------------------------------------------------- H. every native type under a non-zero seed
+
+_NATIVE_TREE = {'k': 'add', 'a': {'k': 'add', 'a': {'k': 'mul', 'a': {'k': 'draw', 'n': '@v'}, 'b': {'k': 'var', 'j': 0}},
+                                  'b': {'k': 'mul', 'a': {'k': 'mul', 'a': {'k': 'draw', 'n': '@v'}, 'b': {'k': 'draw', 'n': '@v'}}, 'b': {'k': 'beta', 'i': 0}}},
+                'b': {'k': 'mul', 'a': {'k': 'draw', 'n': '@o'}, 'b': {'k': 'var', 'j': 1}}}
+
+
+def rename_draws(t, m):
+    if t['k'] == 'draw':
+        return {'k': 'draw', 'n': m[t['n']]}
+    return {k: (rename_draws(v, m) if k in ('a', 'b') else v) for k, v in t.items()}
+
+
+def gen_native_case(rng, ty=None):
+    ty = ty or rng.choice(native_names())
+    N = rng.randint(1, 4)
+    v, o = rng.sample(NAME_POOL, 2)
+    return {'native': ty, 'N': N, 'R': fix_R(rng.choice([1, 2, 3, 8]), [ty]), 'seed': rng.randint(1, 10**6), 'v': v, 'other': o, 'other_type': rng.choice(USER),
+            'betas': [rng.randint(-8, 8) / 8.0, 0.0], 'rows': [[rng.randint(1, 8) / 4.0, rng.randint(-4, 4) / 2.0] for _ in range(N)],
+            'via': rng.choice(['biogeme', 'biogeme', 'get_value_c']), 'between': rng.choice([0, 3, 400])}
+
+
+def check_native_seed(ctx, res, case):
+    """every native type: the registered generator is a function of the seeded state, and a BIOGEME object / an expression
+    evaluated under that seed reads one of the first tables the generator produces from that state"""
+    import biogeme.biogeme as bio
+    from biogeme.expressions import MonteCarlo
+    from biogeme.native_draws import native_random_number_generators
+
+    where = 'BIOGEME seed'
+    ty, N, R, seed, v, o = case['native'], case['N'], case['R'], case['seed'], case['v'], case['other']
+    iso_f.note(case, where)
+    res.count({'native-seed': case}, nontrivial=R >= 2)
+    res.tally('native-seed:' + ty)
+    res.tally('native-seed:' + case['via'])
+    if ty not in DET_NATIVE + RND_NATIVE:
+        res.notes.append(f'native type {ty} is in neither list of the generators of this check')
+    gen = native_random_number_generators[ty].generator
+    np.random.seed(seed)
+    first = [np.array(gen(N, R), dtype=float) for _ in range(3)]
+    np.random.uniform(size=7)
+    np.random.seed(seed)
+    again = [np.array(gen(N, R), dtype=float) for _ in range(3)]
+    if any(a.shape != (N, R) for a in first):
+        res.violate(f'the generator registered for {ty} returns a table [observations, draws]', case, [list(a.shape) for a in first], [N, R], where=where)
+        return
+    if not all(np.array_equal(a, b) for a, b in zip(first, again)):
+        res.violate(f'with a non-zero seed the results are reproducible: the series of the native type {ty} generated twice from the state np.random.seed({seed})', case,
+                    again[0].tolist(), first[0].tolist(), where=where)
+        return
+    tree = rename_draws(_NATIVE_TREE, {'@v': v, '@o': o})
+    types = {v: ty, o: case['other_type']}
+    bdict = beta_vector(case['betas'])
+    oth = np.asarray(series_of(case['other_type'], N, R), dtype=float)
+
+    def one_run():
+        with core.scratch(TOML):
+            d = make_db(N, case['rows'])
+            d.set_random_number_generators({f'G{g}': (user_gen(g), f'user {g}') for g in range(3)})
+            expr = MonteCarlo(build(tree, types))
+            if case['via'] == 'get_value_c':
+                np.random.seed(seed)
+                return [float(x) for x in expr.get_value_c(database=d, betas=bdict, number_of_draws=R, prepare_ids=True)]
+            B = bio.BIOGEME(d, {'v': expr}, number_of_draws=R, seed=seed)
+            return [float(x) for x in B.simulate({n: bdict[n] for n in B.free_beta_names})['v'].values]
+
+    try:
+        a = one_run()
+        if case['between']:
+            np.random.uniform(size=case['between'])
+        b = one_run()
+    except Exception as e:  # noqa: BLE001
+        res.violate(f'evaluation with a draw variable of type {ty} raises {type(e).__name__}: {str(e)[:150]}', case, core.exc_kind(e), 'values', where=where)
+        if isinstance(e, RuntimeError):
+            raise
+        return
+    if [f2b(x) for x in a] != [f2b(x) for x in b]:
+        res.violate(f'with a non-zero seed the results are reproducible (bit for bit): two evaluations with seed {seed} and a draw variable of type {ty}', case, b, a, where=where)
+        return
+    cands = first[:1] if case['via'] == 'get_value_c' else first
+    exps = [[math.fsum(py_eval(tree, case['betas'], case['rows'][n], {v: float(T[n][r]), o: float(oth[n][r])}) for r in range(R)) / R for n in range(N)] for T in cands]
+    if not any(all(core.close(x, y, rel=1e-11, abs_=1e-11) for x, y in zip(a, e)) for e in exps):
+        res.violate(f'the series of a draw variable of type {ty} is what the registered generator produces under the seed '
+                    f'({"the first table" if case["via"] == "get_value_c" else "one of the first three tables"} generated from np.random.seed({seed}))', case, a, exps[0], where=where)
+
+
+# ----------------------------------------------------------------------------- I. numerical integration next to other elements
+
+
+def gen_integrate2_case(rng):
+    N = rng.randint(1, 4)
+    rvs = rng.sample(RV_POOL, 2)
+    if rng.random() < 0.6:
+        rvs.sort(reverse=True)  # first appearance in the formula: not the alphabetical order
+    names = rng.sample(NAME_POOL, rng.choice([1, 2]))
+    if len(names) == 2 and rng.random() < 0.6:
+        names.sort(reverse=True)
+    tree = gen_tree(rng, rng.randint(1, 2), names)
+    for n in names:
+        if n not in tree_draws(tree):
+            tree = {'k': 'add', 'a': tree, 'b': {'k': 'mul', 'a': {'k': 'draw', 'n': n}, 'b': lit(rng, [(5, 1), (25, 2), (-15, 1)])}}
+    return {'N': N, 'R': rng.choice([1, 2, 7]), 'rows': [[rng.randint(-8, 8) / 4.0, rng.randint(-4, 4) / 2.0] for _ in range(N)],
+            'betas': [rng.randint(-8, 8) / 8.0, rng.randint(-8, 8) / 16.0], 'form': rng.choice(['sum', 'product', 'two-rv', 'two-rv', 'nested']), 'rvs': rvs,
+            'types': {n: rng.choice(DET_TYPES) for n in names}, 'tree': tree,
+            'specs': [{'c': [rng.randint(-4, 4) / 2.0 for _ in range(3)], 'bi': rng.randrange(2), 'vj': rng.randrange(2)} for _ in range(2)],
+            'nested_type': rng.choice(['UNIFORM_HALTON2', 'UNIFORM_HALTON3', 'UNIFORMSYM_HALTON5', 'UNIFORMSYM_HALTON2']), 'via': rng.choice(['get_value_c', 'get_value_c', 'biogeme'])}
+
+
+def check_integrate2(ctx, res, case):
+    """`Integrate` combined with parameters, variables, a Monte-Carlo term, a second random variable, or inside `MonteCarlo`"""
+    import biogeme.biogeme as bio
+    from biogeme.expressions import Beta, Variable, exp, Integrate, RandomVariable, Numeric, MonteCarlo, bioDraws
+
+    where = 'Integrate'
+    N, R, rows, betas, form, rvs, types, tree, specs, nested_type = (case[k] for k in ('N', 'R', 'rows', 'betas', 'form', 'rvs', 'types', 'tree', 'specs', 'nested_type'))
+    names = list(types)
+    iso_f.note(case, where)
+    bdict = beta_vector(betas)
+
+    def beta(i):
+        return Beta(BETA_NAMES[i], 0.0, None, None, 0)
+
+    def phi(om):
+        return exp(-(om * om) / 2) / Numeric(math.sqrt(2 * math.pi))
+
+    def integ(k):
+        sp, om = specs[k], RandomVariable(rvs[k])
+        g = (Numeric(sp['c'][0]) + Numeric(sp['c'][1]) * om + Numeric(sp['c'][2]) * om * om) * phi(om) * exp(beta(sp['bi']) * Variable(COLS[sp['vj']]) * om)
+        return Integrate(g, rvs[k])
+
+    def closed(k, row):
+        sp = specs[k]
+        a = betas[sp['bi']] * row[sp['vj']]
+        return math.exp(a * a / 2) * (sp['c'][0] + sp['c'][1] * a + sp['c'][2] * (1 + a * a))  # C10.integral_poly_phi_exp
+
+    mc = MonteCarlo(build(tree, types))
+    ser = {n: series_of(types[n], N, R) for n in names}
+
+    def mc_val(n):
+        return math.fsum(py_eval(tree, betas, rows[n], {nm: ser[nm][n][r] for nm in names}) for r in range(R)) / R
+
+    if form == 'sum':
+        F = integ(0) + mc + beta(1) * Variable('Y')
+        expected = [closed(0, rows[n]) + mc_val(n) + betas[1] * rows[n][1] for n in range(N)]
+    elif form == 'product':
+        F = integ(0) * mc - Variable('X')
+        expected = [closed(0, rows[n]) * mc_val(n) - rows[n][0] for n in range(N)]
+    elif form == 'two-rv':
+        F = integ(0) * beta(0) + integ(1) + mc
+        expected = [closed(0, rows[n]) * betas[0] + closed(1, rows[n]) + mc_val(n) for n in range(N)]
+    else:
+        # MonteCarlo(int phi(om) exp(b xi om) d om) = mean over the draws of exp((b xi_r)^2 / 2)   (C10.integral_phi_exp)
+        om = RandomVariable(rvs[0])
+        F = MonteCarlo(Integrate(phi(om) * exp(beta(0) * bioDraws('Zeta', nested_type) * om), rvs[0])) + beta(1)
+        xs = series_of(nested_type, N, R)
+        expected = [math.fsum(math.exp((betas[0] * xs[n][r]) ** 2 / 2) for r in range(R)) / R + betas[1] for n in range(N)]
+    F = with_betas(F)
+    try:
+        d = make_db(N, rows)
+        d.set_random_number_generators({f'G{g}': (user_gen(g), f'user {g}') for g in range(3)})
+        if case['via'] == 'get_value_c':
+            vals = [float(v) for v in F.get_value_c(database=d, betas=bdict, number_of_draws=R, prepare_ids=True)]
+        else:
+            with core.scratch(TOML):
+                B = bio.BIOGEME(d, {'v': F}, number_of_draws=R)
+                vals = [float(v) for v in B.simulate({n: bdict[n] for n in B.free_beta_names})['v'].values]
+    except Exception as e:  # noqa: BLE001
+        res.violate(f'Integrate next to other elements raises {type(e).__name__}: {str(e)[:150]}', case, core.exc_kind(e), 'values', where=where)
+        if isinstance(e, RuntimeError):
+            raise
+        return
+    res.count({'integrate2': case}, nontrivial=True)
+    res.tally('integrate2:' + form + ':' + case['via'])
+    scale = [max(1.0, abs(e), abs(mc_val(n)) if form != 'nested' else 1.0) for n, e in enumerate(expected)]
+    if len(vals) != N or not all(abs(x - y) <= 1e-6 * sc for x, y, sc in zip(vals, expected, scale)):
+        res.violate('Integrate = integral over the real line of its argument in the named variable, next to other elements of the formula '
+                    '(Gaussian closed forms; Monte-Carlo terms = mean over the own series)', case, vals, expected, where=where)
+
+
+# ----------------------------------------------------------------------------- J. estimation of a simulated likelihood
+
+
+def gen_estimate_case(rng):
+    u, w = rng.sample(NAME_POOL, 2)
+    if rng.random() < 0.7 and u < w:
+        u, w = w, u  # u appears first and sorts last
+    tu, tw = rng.sample(['G0', 'G1', 'UNIFORM_HALTON2', 'UNIFORM_HALTON3', 'UNIFORM_HALTON5', 'NORMAL_HALTON3'], 2)
+    return {'estimate': True, 'N': rng.randint(1, 4), 'R': rng.choice([2, 4, 8]), 'u': [u, tu], 'w': [w, tw], 'start': rng.randint(-4, 4) / 4.0}
+
+
+def check_estimate(ctx, res, case):
+    """`BIOGEME.estimate` on log likelihood MonteCarlo(-(b u - w)^2): the final log likelihood is the mean over the own series
+    of u and w at the estimate"""
+    import logging
+    import biogeme.biogeme as bio
+    from biogeme.expressions import Beta, MonteCarlo, bioDraws
+
+    where = 'MonteCarlo'
+    N, R, (u, tu), (w, tw) = case['N'], case['R'], case['u'], case['w']
+    iso_f.note(case, where)
+    logging.getLogger('biogeme').setLevel(logging.ERROR)
+    b = Beta('b2', case['start'], None, None, 0)
+    resid = b * bioDraws(u, tu) - bioDraws(w, tw)
+    ll = MonteCarlo(-(resid * resid))
+    try:
+        with core.scratch(TOML):
+            d = make_db(N, [[0.0, 0.0]] * N)
+            d.set_random_number_generators({f'G{g}': (user_gen(g), f'user {g}') for g in range(3)})
+            B = bio.BIOGEME(d, ll, number_of_draws=R)
+            B.modelName = 'c10est'
+            B.generate_html = B.generate_pickle = B.save_iterations = False
+            results = B.estimate()
+            bhat = float(results.get_beta_values()['b2'])
+            final = float(results.data.logLike)
+    except Exception as e:  # noqa: BLE001
+        res.violate(f'estimate raises {type(e).__name__}: {str(e)[:150]}', case, core.exc_kind(e), 'results', where=where)
+        if isinstance(e, RuntimeError):
+            raise
+        return
+    res.count({'estimate': case}, nontrivial=True)
+    res.tally('estimate')
+    U, W = np.asarray(series_of(tu, N, R), dtype=float), np.asarray(series_of(tw, N, R), dtype=float)
+    # (whether the optimiser reached the maximiser sum(u w) / sum(u u) is not this property's subject: only the value it reports)
+    L = -float(((bhat * U - W) ** 2).sum()) / R
+    Lswap = -float(((bhat * W - U) ** 2).sum()) / R
+    res.tally('estimate:discriminates-u-from-w' if not core.close(L, Lswap, rel=1e-6, abs_=1e-9) else 'estimate:symmetric')
+    if not core.close(final, L, rel=1e-9, abs_=1e-9):
+        res.violate('the final log likelihood of estimate is the sum over the observations of the mean over the draws of the integrand at the estimate, every draw variable reading its own series',
+                    case, final, L, where=where)
 
 
 # ----------------------------------------------------------------------------- the check
@@ -1045,6 +1731,33 @@ CORPUS_DERIVE2 = [
      'tree': {'k': 'sub', 'a': _D2_TREE, 'b': {'k': 'mul', 'a': {'k': 'draw', 'n': 'a'}, 'b': {'k': 'var', 'j': 1}}},
      'rows': [[3.0, 0.5, 1.0], [4.0, -1.0, 2.0]], 'wrt': wrt, 'idx': idx, 'form': form}
     for wrt, idx, form in (('var', 0, 'derive-of-mc'), ('var', 1, 'mc-of-derive'), ('beta', 1, 'derive-of-mc'), ('beta', 0, 'mc-of-derive'), ('rv', 0, 'derive-of-mc'))
+]
+
+
+_S_TREE = {'k': 'add', 'a': {'k': 'sub', 'a': {'k': 'mul', 'a': {'k': 'draw', 'n': 'zeta'}, 'b': {'k': 'beta', 'i': 0}}, 'b': {'k': 'mul', 'a': {'k': 'draw', 'n': 'alpha'}, 'b': {'k': 'var', 'j': 0}}},
+           'b': {'k': 'mul', 'a': {'k': 'draw', 'n': 'zeta'}, 'b': {'k': 'draw', 'n': 'alpha'}}}
+CORPUS_SESSION = [
+    # `zeta` is used before `alpha`; two objects with the same seed on one database, an expression evaluated on it in between,
+    # numbers taken from the generator, number_of_draws assigned; every entry point
+    {'N': 3, 'seed0': 99, 'betas': [0.5, -0.25], 'rows': [[1.0, 0.5], [2.0, -1.0], [-0.5, 0.0]], 'ops': [
+        {'k': 'new', 'seed': 4242, 'decl': [['zeta', tz], ['alpha', ta]], 'R': 4, 'tree': _S_TREE, 'layout': 'is-ll', 'll_key': 'log_like'},
+        {'k': 'evalB', 'i': 0, 'via': 'simulate'}, {'k': 'evalB', 'i': 0, 'via': 'calculate_likelihood'}, {'k': 'consume', 'n': 17},
+        {'k': 'evalE', 'decl': [['zeta', tz], ['alpha', ta]], 'R': 2, 'tree': _S_TREE, 'via': 'gvad'},
+        {'k': 'evalE', 'decl': [['xi2', 'G2']], 'R': 3, 'tree': {'k': 'mul', 'a': {'k': 'draw', 'n': 'xi2'}, 'b': {'k': 'beta', 'i': 1}}, 'via': 'create_function'},
+        {'k': 'createF', 'decl': [['zeta', tz], ['alpha', ta]], 'R': 2, 'tree': _S_TREE}, {'k': 'callF', 'shift': 0.5}, {'k': 'consume', 'n': 1}, {'k': 'callF', 'shift': 0.0},
+        {'k': 'setR', 'i': 0, 'R': 100, 'alias': True}, {'k': 'evalB', 'i': 0, 'via': 'cl_and_derivatives'}, {'k': 'evalB', 'i': 0, 'via': 'calculate_init_likelihood'},
+        {'k': 'new', 'seed': 4242, 'decl': [['zeta', tz], ['alpha', ta]], 'R': 4, 'tree': _S_TREE, 'layout': 'is-ll', 'll_key': 'log_like'},
+        {'k': 'evalB', 'i': 1, 'via': 'calculate_likelihood_scaled'}, {'k': 'evalB', 'i': 0, 'via': 'simulate'}, {'k': 'evalB', 'i': 1, 'via': 'simulate'}]}
+    for tz, ta in (('G0', 'UNIFORM_HALTON3'), ('NORMAL', 'UNIFORMSYM_MLHS_ANTI'), ('NORMAL_MLHS_ANTI', 'NORMAL_MLHS_ANTI'))
+] + [
+    # the same NAME declared with another type in a later operation, same number of draws; the same expression object evaluated
+    # again with another number of draws
+    {'N': 2, 'seed0': 5, 'betas': [0.5, -0.25], 'rows': [[1.0, 0.5], [2.0, -1.0]], 'ops': [
+        {'k': 'evalE', 'decl': [['zeta', 'G1']], 'R': 4, 'tree': {'k': 'mul', 'a': {'k': 'draw', 'n': 'zeta'}, 'b': {'k': 'beta', 'i': 0}}, 'via': 'get_value_c'},
+        {'k': 'evalE', 'decl': [['zeta', 'UNIFORM_HALTON2']], 'R': 4, 'tree': {'k': 'mul', 'a': {'k': 'draw', 'n': 'zeta'}, 'b': {'k': 'beta', 'i': 0}}, 'via': 'get_value_c'},
+        {'k': 'evalE', 'decl': [['zeta', 'UNIFORM_HALTON2']], 'R': 2, 'tree': {'k': 'mul', 'a': {'k': 'draw', 'n': 'zeta'}, 'b': {'k': 'beta', 'i': 0}}, 'via': 'gvad', 'reuse_of': 1},
+        {'k': 'new', 'seed': 0, 'decl': [['zeta', 'UNIFORMSYM']], 'R': 2, 'tree': {'k': 'mul', 'a': {'k': 'draw', 'n': 'zeta'}, 'b': {'k': 'beta', 'i': 0}}, 'layout': 'only', 'll_key': 'log_like'},
+        {'k': 'evalB', 'i': 0, 'via': 'simulate'}]},
 ]
 
 
@@ -1109,9 +1822,28 @@ def check_impl(ctx) -> Result:
             guard(res, 'Derive (in context)', check_derive2, ctx, res, gen_derive2_case(rng))
             if len(res.violations) - base > 10:
                 break
+        for c in CORPUS_SESSION:
+            guard(res, 'session', check_session, ctx, res, c)
+            res.tally('corpus')
+        base = len(res.violations)
+        for _ in range(ctx.n(70, 1000)):
+            guard(res, 'session', check_session, ctx, res, gen_session(rng))
+            if len(res.violations) - base > 10:
+                break
+        base = len(res.violations)
+        for _ in range(ctx.n(2, 20)):
+            for ty in native_names():
+                guard(res, 'BIOGEME seed', check_native_seed, ctx, res, gen_native_case(rng, ty))
+            if len(res.violations) - base > 10:
+                break
+        for _ in range(ctx.n(60, 1000)):
+            guard(res, 'Integrate', check_integrate2, ctx, res, gen_integrate2_case(rng))
+        for _ in range(ctx.n(12, 150)):
+            guard(res, 'MonteCarlo', check_estimate, ctx, res, gen_estimate_case(rng))
     except EnginePoisoned:
         res.notes.append('run stopped after an engine exception (the engine keeps it for the rest of the process)')
     ctx.batch.flush()
+    ctx.batch.flush()  # the session stream asks the model twice (tables described, then values on the resolved tables)
     return res
 
 
@@ -1134,8 +1866,11 @@ def search(ctx, res, broken):
         check_mc(c2, r2, gen_mc_case(rng))
         check_table(c2, r2, rng)
         check_derive2(c2, r2, gen_derive2_case(rng))
+        check_session(c2, r2, gen_session(rng))
+        check_native_seed(c2, r2, gen_native_case(rng))
         if i % 4 == 0:
             check_integrate(c2, r2, rng)
+            check_integrate2(c2, r2, gen_integrate2_case(rng))
             check_derive(c2, r2, rng)
             check_seed(c2, r2, gen_seed_case(rng))
         if r2.violations:
@@ -1148,7 +1883,15 @@ def replay_impl(ctx, obj):
     out = {'replayed': obj.get('what')}
     c2 = _Ctx2(core.rng_for('C10-replay', 0))
     r = Result()
-    if 'dbcols' in case and 'tree' in case:
+    if 'ops' in case:
+        check_session(c2, r, case)
+    elif 'native' in case:
+        check_native_seed(c2, r, case)
+    elif 'rvs' in case and 'specs' in case:
+        check_integrate2(c2, r, case)
+    elif case.get('estimate'):
+        check_estimate(c2, r, case)
+    elif 'dbcols' in case and 'tree' in case:
         check_derive2(c2, r, case)
     elif 'between' in case and 'tree' in case:
         check_seed(c2, r, case)
